@@ -29,12 +29,22 @@
 #include <set>
 #include <sstream>
 
+#include <sys/time.h>
 #include <unistd.h>
 
 using namespace vita;
 
 namespace
 {
+
+// watchdog in CPU time (robust on a loaded machine): an operator that never returns kills the
+// process with SIGPROF and is attributed to the request that was being executed
+void watchdog(unsigned seconds)
+{
+  itimerval t{};
+  t.it_value.tv_sec = seconds;
+  setitimer(ITIMER_PROF, &t, nullptr);
+}
 
 // ---------------------------------------------------------------- symbol sets
 constexpr unsigned NSETS = 6;
@@ -804,7 +814,7 @@ struct runner
     scenario = k;
     opn = 0;
     last_ok = true;
-    alarm(15);   // watchdog: an operator that never returns is attributed to its request
+    watchdog(20);
     rng = verif::splitmix(seed * 1000003ull + k);
     vita::random::seed(unsigned(rng.next() & 0x7fffffff));
     static const index_t lens[] = {2, 3, 4, 5, 6, 7, 8, 10, 12, 16, 20, 24, 32, 48, 64};
@@ -930,7 +940,7 @@ int main(int argc, char **argv)
       {
         r.scenario = k; r.opn = j;
         r.last_ok = true;
-        alarm(15);
+        watchdog(20);
         r.rng = verif::splitmix(seed * 7919ull + k * 131ull + j);
         vita::random::seed(unsigned(r.rng.next() & 0x7fffffff));
         try { r.replay_request(line); }
